@@ -150,7 +150,8 @@ CLAIMED = {
              "call; every observed sequence is also judged by tools/walkspec.py. Memfs/WalkFollow.v proves the denotation is always defined, "
              "links followed or not (a followed link to an open directory is LinkLooping, every other followed link adds a new open path, a "
              "plain child is one level deeper: no endless descent). Partial: with links followed, that the mirror's fuel (a model artefact) "
-             "covers the recursion's steps is exercised and judged, not proved; 'identically on both backends' runs under C02.",
+             "covers the recursion's steps is exercised and judged, not proved; 'identically on both backends' runs under C02; on Stdfs a directory "
+             "listed through its physical path and through a directory link of another depth must show the same kinds (tools/c_std.py).",
         note="Trusted: Coq kernel; sibling order of unsorted traversals and of name ties is HashSet order and compared as a multiset; "
              "tools/walkspec.py as a second, independent judge; extraction, driver, harness, differ.",
         technique="Coq proof (machine = recursive denotation; exactness, order and termination without follow) + correspondence + independent judge",
@@ -186,7 +187,8 @@ CLAIMED = {
              "mode, nothing else appears below the destination, everything outside it is as before (it needs the keys below the source to be "
              "proper path names, proved an invariant of every call in Memfs/Names.v, so it holds in every reachable state); with dst an "
              "existing directory the same holds for dst/<name of the source> (Memfs/CopyInto.v). Partial: sources containing links and "
-             "copies that follow links are judged on the bounded enumeration, not proved.",
+             "copies that follow links are judged on the bounded enumeration, not proved; Stdfs copies onto links, with a changed working "
+             "directory, and into the source through a link are judged on Stdfs's own answers (tools/c_std.py).",
         note="Trusted: Coq kernel; tools/frames.py as the executable statement of the clauses; after a copy that follows links the state is "
              "compared up to HashSet order; extraction, driver, harness, differ.",
         technique="Coq proof (validation completeness and frame) + model-guided BFS judged on pre/post snapshots",
